@@ -116,6 +116,10 @@ Section AnyPlan.
     intros st HI. pose proof (insert_self_range_ok p (size st) a b st HI) as H. exact H.
   Qed.
 
+  (* an operation that only refuses *)
+  Lemma refuse_ok (f : fv -> fv * outcome) : (forall st, f st = (st, Raised)) -> StepOK (GInv Q) f.
+  Proof. intros Hf st HI. rewrite Hf. simpl. split; auto. discriminate. Qed.
+
   Lemma insert_range_ok p key xs : StepOK (GInv Q) (insert_range p key (map Filled xs)).
   Proof.
     intros st HI. destruct (insert_range p key (map Filled xs) st) as [st' o] eqn:E.
@@ -204,6 +208,9 @@ Section AnyPlan.
     - (* OPushBackAt *) eapply on_obj_ok in H; eauto. apply alias_ok. intros s Hs. now apply append_okS.
     - (* OInsertSelfRange *) eapply on_obj_ok in H; eauto. apply insert_self_range_ok.
     - (* OPushBackSelfRange *) eapply on_obj_ok in H; eauto. apply push_back_self_range_ok.
+    - eapply on_obj_ok in H; eauto. apply refuse_ok. reflexivity.
+    - eapply on_obj_ok in H; eauto. apply refuse_ok. intros st; unfold emplace_before; now destruct (cap st <=? size st).
+    - eapply on_obj_ok in H; eauto. apply refuse_ok. reflexivity.
   Qed.
 End AnyPlan.
 
@@ -424,6 +431,9 @@ Proof.
   destruct E as (-> & E2 & E3). unfold absobj. now rewrite E2, E3.
 Qed.
 
+Lemma refuse_I (f : fv -> fv * outcome) : (forall st, f st = (st, Raised)) -> Istep f (fun a => (a, Raised)).
+Proof. intros Hf st HI. rewrite Hf. simpl. auto. Qed.
+
 Lemma at_I k : Istep (fun st => (st, access_outcome (at_ st k))) (fun a => (a, match bl_at (snd a) k with Some _ => Done | None => Raised end)).
 Proof.
   intros st HI. simpl. split; auto. pose proof (at_refines filled st k HI) as H.
@@ -520,6 +530,9 @@ Proof.
     apply (alias_I (fun s => push_back None s) (fun s a => a_try a (bl_append (fst a) (snd a) s))). intros; now apply append_I.
   - eapply on_obj_refines in H; eauto. now apply insert_self_range_I.
   - eapply on_obj_refines in H; eauto. apply push_back_self_range_I.
+  - eapply on_obj_refines in H; eauto. apply refuse_I. reflexivity.
+  - eapply on_obj_refines in H; eauto. apply refuse_I. intros st; unfold emplace_before; now destruct (cap st <=? size st).
+  - eapply on_obj_refines in H; eauto. apply refuse_I. reflexivity.
 Qed.
 
 (* ---------- the strong invariant under fault plans: lost only by a throw inside positional emplace / erase ---------- *)
@@ -645,6 +658,9 @@ Proof.
     destruct (insert_self_range p pos a b s) as [s' o'] eqn:E. apply (insert_self_range_good nonfresh) in E; auto. apply E.
   - eapply (on_obj_cap WInv) in H; eauto. intros s Hs. destruct (self_range_valid s a b) eqn:V; auto.
     destruct (push_back_self_range p a b s) as [s' o'] eqn:E. apply (insert_self_range_good nonfresh) in E; auto. apply E.
+  - eapply (on_obj_cap WInv) in H; eauto. intros s _. reflexivity.
+  - eapply (on_obj_cap WInv) in H; eauto. intros s _. unfold emplace_before. now destruct (cap s <=? size s).
+  - eapply (on_obj_cap WInv) in H; eauto. intros s _. reflexivity.
 Qed.
 
 (* ---------- whole histories ---------- *)
